@@ -93,6 +93,9 @@ def run(ctx):
                     yield ("opaque", {"t": t, "b": rng.randbytes(w).hex()})
                 yield ("opaque", {"t": t, "b": bytes(w).hex()})
                 yield ("opaque", {"t": t, "b": (b"\xff" * w).hex()})
+            if t != "CH" and t[0] == "A":
+                for k in range(1, 12):
+                    yield ("arr", {"t": t, "b": rng.randbytes(int(t[1:4])).hex(), "bad": k * 37})
             if t != "CH" and t[0] in "XA":
                 w = int(t[1:4])
                 for n in sorted({0, 1, w - 1, w + 1, w + 2, 2 * w, w + 255} - {w, -1}):
@@ -212,7 +215,7 @@ def run(ctx):
     from . import run_opt
 
     rng2 = __import__("random").Random(ctx.seed if hasattr(ctx, "seed") else 0)
-    for key in ("int", "wide", "opaque", "nom", "dec", "text", "att"):
+    for key in ("int", "wide", "opaque", "nom", "dec", "text", "att", "arr"):
         pool = [i for o, i in itertools.chain(gen_int(), gen_misc()) if o == key]
         rng2.shuffle(pool)
         run_opt(ctx, MODULE, CFG, "codec:" + key, pool[: (4000 if big else 600)], sigfn)
